@@ -165,11 +165,15 @@ pub fn gen_plan(seed: u64, index: usize, _tier: Tier) -> Plan {
             }
             _ => (if grease { random_grease(&mut rng) } else { random_unknown(&mut rng, known_frame_type) }, 0),
         };
+        let as_capsule = at == Where::SessionStream && rng.coin();
+        // capsule types with a defined meaning (RFC 9297 DATAGRAM, the WebTransport close / drain /
+        // flow-control capsules) are not "unknown"
+        let known_capsule = |t: u64| matches!(t, 0x00 | 0x2843 | 0x78ae) || (0x190b_4d3d..=0x190b_4d44).contains(&t);
+        let ty = if as_capsule && known_capsule(ty) { rc::grease(ty) } else { ty };
         let mut payload = gen_payload(&mut rng);
         if matches!(ty, 0x03 | 0x07 | 0x0d) {
             payload = rc::varint(rng.range(0, 100) * 4);
         }
-        let as_capsule = at == Where::SessionStream && rng.coin();
         if as_capsule {
             // keep the enclosing DATA frame within the implementation's documented 4096 B frame limit
             payload.truncate(4000);
